@@ -106,6 +106,9 @@ type Field struct {
 	Name   string
 	// EnumName: full name of the enum type (derived schemas), "" for the corpus default enum.
 	EnumName string
+	// Extern: full name of a message type defined outside this schema (well-known type or a message
+	// of another corpus package); only for building descriptors (IsMsg must be true, Msg ignored).
+	Extern string
 }
 
 type Msg struct {
@@ -117,6 +120,8 @@ type Msg struct {
 }
 
 type Schema struct {
+	// Imports: proto file paths this schema's file depends on (for Extern fields).
+	Imports []string
 	ID      string
 	Package string // proto package (corpus schemas)
 	GoPkg   string // Go import path
@@ -194,12 +199,14 @@ func (s *Schema) ToFile(fileName string) *descriptorpb.FileDescriptorProto {
 		Syntax:  proto.String("proto3"),
 		Options: &descriptorpb.FileOptions{GoPackage: proto.String(s.GoPkg)},
 	}
+	fd.Dependency = append(fd.Dependency, s.Imports...)
 	ed := &descriptorpb.EnumDescriptorProto{Name: proto.String("E")}
 	for _, v := range CorpusEnumValues {
 		ed.Value = append(ed.Value, &descriptorpb.EnumValueDescriptorProto{Name: proto.String(v.Name), Number: proto.Int32(v.Num)})
 	}
 	fd.EnumType = append(fd.EnumType, ed)
 	typeName := func(i int) string { return "." + s.Package + "." + s.Msgs[i].Name }
+	_ = typeName
 	for _, m := range s.Msgs {
 		md := &descriptorpb.DescriptorProto{Name: proto.String(m.Name)}
 		ngroups := 0
@@ -215,10 +222,15 @@ func (s *Schema) ToFile(fileName string) *descriptorpb.FileDescriptorProto {
 			}
 			md.OneofDecl = append(md.OneofDecl, &descriptorpb.OneofDescriptorProto{Name: proto.String(name)})
 		}
+		var curExtern string
 		setElem := func(fp *descriptorpb.FieldDescriptorProto, isMsg bool, k Kind, mi int) {
 			if isMsg {
 				fp.Type = descriptorpb.FieldDescriptorProto_TYPE_MESSAGE.Enum()
-				fp.TypeName = proto.String(typeName(mi))
+				if curExtern != "" {
+					fp.TypeName = proto.String("." + curExtern)
+				} else {
+					fp.TypeName = proto.String(typeName(mi))
+				}
 			} else {
 				fp.Type = descTypes[k].Enum()
 				if k == Enum {
@@ -237,6 +249,7 @@ func (s *Schema) ToFile(fileName string) *descriptorpb.FileDescriptorProto {
 				Number:   proto.Int32(int32(f.Num)),
 				Label:    descriptorpb.FieldDescriptorProto_LABEL_OPTIONAL.Enum(),
 			}
+			curExtern = f.Extern
 			switch f.Shape {
 			case Singular:
 				setElem(fp, f.IsMsg, f.Kind, f.Msg)
